@@ -1146,6 +1146,9 @@ var c12Fixed = []string{
 }
 
 func c12() {
+	for i := 0; i < 40; i++ {
+		pCustom(rnd(), true) // nested custom messages: standard bytes (recorded deviation: two length prefixes)
+	}
 	g := &pgen{maxDepth: 3, allowRaw: false, allowMap: true, bigNumber: false}
 	nTypes, nVals, nRe := 260, 3, 5
 	if *tier == "thorough" {
